@@ -120,3 +120,80 @@ func shortFn(f *ssa.Function) string {
 	}
 	return strings.TrimPrefix(strings.Replace(fnName(f), "(*"+pkgTemplate+".", "(*", 1), pkgTemplate+".")
 }
+
+// findRootAnalysis: the function of package template that both execution gates call, whose error result they
+// return, and from which the tree walk (escapeTree) is reached: the analysis of one root template, whatever it
+// is called and whatever it is a method of.
+func findRootAnalysis(p *Program) *ssa.Function {
+	walk := p.Func("template", "(*escaper).escapeTree")
+	if walk == nil {
+		return nil
+	}
+	reaches := func(f *ssa.Function) bool {
+		seen := map[*ssa.Function]bool{}
+		work := []*ssa.Function{f}
+		for len(work) > 0 && len(seen) < 64 {
+			g := work[len(work)-1]
+			work = work[:len(work)-1]
+			if g == walk {
+				return true
+			}
+			if seen[g] || g.Blocks == nil || g.Pkg != walk.Pkg {
+				continue
+			}
+			seen[g] = true
+			for _, b := range g.Blocks {
+				for _, in := range b.Instrs {
+					if c, ok := in.(ssa.CallInstruction); ok {
+						if h := staticCallee(c.Common()); h != nil {
+							work = append(work, h)
+						}
+					}
+				}
+			}
+		}
+		return false
+	}
+	var common map[*ssa.Function]bool
+	for _, name := range []string{"(*Template).escape", "(*Template).lookupAndEscapeTemplate"} {
+		gate := p.Func("template", name)
+		if gate == nil {
+			return nil
+		}
+		here := map[*ssa.Function]bool{}
+		for _, b := range gate.Blocks {
+			for _, in := range b.Instrs {
+				c, ok := in.(*ssa.Call)
+				if !ok {
+					continue
+				}
+				h := staticCallee(c.Common())
+				if h == nil || h.Pkg != gate.Pkg || h.Signature.Results().Len() != 1 || !isErrorType(h.Signature.Results().At(0).Type()) {
+					continue
+				}
+				if h.Object() != nil && h.Object().Exported() {
+					continue
+				}
+				if reaches(h) {
+					here[h] = true
+				}
+			}
+		}
+		if common == nil {
+			common = here
+		} else {
+			for h := range common {
+				if !here[h] {
+					delete(common, h)
+				}
+			}
+		}
+	}
+	if len(common) != 1 {
+		return nil
+	}
+	for h := range common {
+		return h
+	}
+	return nil
+}
